@@ -81,6 +81,9 @@ type Obligation struct {
 	ScriptsG []string
 	ScriptG string   // same query with the remaining quantified assumptions dropped
 	groundPass bool
+	ScriptA string // stage A: no quantified assumptions, no instances
+	ScriptB string // stage B: goal-directed instances only, quantified assumptions dropped
+	split   int
 	// results
 	Result  string // unsat / sat / unknown / timeout / trivial
 	Solver  string
@@ -150,6 +153,7 @@ type FnExec struct {
 	callResults map[string]specVar
 	callArgs    map[string][]specVar
 	calledCell  map[string]int
+	curClosure  *ssa.MakeClosure
 	entryFacts int
 }
 
